@@ -32,6 +32,8 @@ class HsmsPeer:
         self.bytes_out = 0  # bytes sent to the endpoint on this connection
         self.auto_select = False
         self.auto_linktest = True
+        self._out_parser = rc.FrameParser()  # tracks frame boundaries of what this peer has sent
+        self._deferred: list = []
         sock.on_bytes = self._on_bytes
         sock.on_eof = self._on_eof
 
@@ -60,16 +62,30 @@ class HsmsPeer:
 
     # ---- outbound to the endpoint
     def send(self, frame, delay=None):
+        """Send one whole frame; if a raw partial frame is in progress the frame is queued behind it."""
         data = frame.encode() if isinstance(frame, rc.Frame) else bytes(frame)
+        if self._out_parser.pending:
+            self._deferred.append((frame, delay))
+            return True
         if isinstance(frame, rc.Frame):
             self.sent.append(frame)
             self.sim.log("wire>", self.label, frame.short())
         self.bytes_out += len(data)
+        self._out_parser.feed(data)
+        self._out_parser.frames.clear()
         return self.sock.inject(data, delay)
 
     def send_bytes(self, data, delay=None):
+        """Send raw bytes of a (valid) frame stream, possibly ending inside a frame."""
         self.bytes_out += len(data)
-        return self.sock.inject(data, delay)
+        self._out_parser.feed(data)
+        self._out_parser.frames.clear()
+        ok = self.sock.inject(data, delay)
+        if not self._out_parser.pending and self._deferred:
+            pending, self._deferred = self._deferred, []
+            for frame, dly in pending:
+                self.send(frame, dly)
+        return ok
 
     def close(self):
         self.sim.log("peer-close", self.label)
@@ -165,7 +181,7 @@ class Endpoint:
         m = data["message"]
         h = m.header
         self.received.append((self.sim.k.seq, h.system, h.stream, h.function, bool(h.require_response),
-                              bytes(m.data)))
+                              bytes(m.data), h.device_id, getattr(h, "p_type", 0)))
         self.sim.log("ev-message", self.label, h.system, h.stream, h.function)
 
     @property
